@@ -38,8 +38,24 @@ KNOWN_TOKENS = {
     # write enable = pin AND (condition on read data), write data = pin, read latency >= 1
     "pin-and-readcond-enable-write-one-cycle-early": lambda kv, kind, t: kind == "mismatch" and "pin_and_cond" in t,
     # addResetLogic + read latency >= 1 + fix-up logic: the initialisation network stays connected, simulator reports a cycle
-    "addresetlogic-latency-fixup-cyclic": lambda kv, kind, t: kind == "reject" and kv.get("init") == "rlogic" and kv.get("pp") == "1" and "Cyclic dependency" in t,
+    "addresetlogic-latency-fixup-cyclic": lambda kv, kind, t: (
+        kind == "reject" and kv.get("init") == "rlogic" and kv.get("pp") == "1" and kv.get("lat") not in ("0",)
+        and "Cyclic dependency" in t and rlogic_fixup_shape(kv)),
 }
+
+
+def rlogic_fixup_shape(kv):
+    """memory fix-up logic is needed: a write port declared before a read port, or read-modify-write data"""
+    ps = parse_ports(kv.get("ports", ""))
+    seen_write = False
+    for p in ps:
+        if p["kind"] in "WAV":
+            seen_write = True
+            if p["src"] is not None:
+                return True
+        elif seen_write:
+            return True
+    return False
 
 
 def has_pin_and_cond(kv):
@@ -212,8 +228,8 @@ def gen_reset(rng, n, tag):
             # the initialisation network loops through the memory node until postprocess() cuts it (not simulable before);
             # with read latency >= 1 and any fix-up logic (write declared before a read, RMW) it stays connected: reported finding
             ppv = 1
-            if lat >= 1 and ports not in ("R0,W1:p", "R0,W0:p"):
-                ports = rng.choice(["R0,W1:p", "R0,W0:p"])
+            if lat >= 1 and ports not in ("R0,W1:p", "R0,W0:p") and rng.random() < 0.85:
+                ports = rng.choice(["R0,W1:p", "R0,W0:p"])      # else: recorded finding addresetlogic-latency-fixup-cyclic
         out.append(" ".join(["M", f"id={tag}Z{i}", f"depth={depth}", f"width={width}", f"type={typ}", f"lat={lat}", "nc=0", f"init={init}",
                              f"iseed={rng.randrange(1000)}", f"clk={clk}", f"dev={dev}", f"pp={ppv}", "exact=0",
                              f"ports={ports}", f"ncyc={rng.choice([30, 50])}", "stim=scan", f"seed={rng.randrange(10 ** 6)}", "xs=0"]))
